@@ -434,6 +434,13 @@ func c34Scenarios() []c34Scen {
 	out = append(out, sliceScens("uint8", mkU8)...)
 	out = append(out, sliceScens("float64", mkF)...)
 	out = append(out, byteScens()...)
+	out = append(out, sliceAliasScens("int", mkInt)...)
+	out = append(out, sliceAliasScens("string", mkStr)...)
+	out = append(out, sliceAliasScens("uint8", mkU8)...)
+	out = append(out, sliceAliasScens("float64", mkF)...)
+	out = append(out, byteAliasScens()...)
+	out = append(out, arrayAliasScens("int", mkInt)...)
+	out = append(out, arrayAliasScens("string", mkStr)...)
 	out = append(out, arrayScens("int", mkInt)...)
 	out = append(out, arrayScens("string", mkStr)...)
 	out = append(out, arrayScens("uint8", mkU8)...)
